@@ -222,6 +222,10 @@ def correspond(ctx):
             if k == "bus" and "bus" not in first:
                 first["bus"] = True
                 _self_test(ctx, recs, ans)
+            if len(dis) > 40:
+                ctx.log("more than 40 disagreements/alarms: stopping the correspondence run early")
+                pool.terminate()
+                break
     names = {"bus": "SoCBusHandler histories (add_region/alloc/add_slave/add_master/io check/finalize)",
              "loc": "SoCCSRHandler/SoCIRQHandler histories (add/alloc/address_map/enable)",
              "cm": "ConstraintManager histories (request/request_all/request_remaining/lookup/add_extension)",
